@@ -960,16 +960,26 @@ class Executor:
         if h:
             return h(self, st, p, loc.ty, n)
         t = CT(loc.ty)
+        # a load is named by its location (region, offset, number of stores
+        # to the region so far): two loads of the same location with no store
+        # in between give the same value (CWRAP(x[i], m) loads x[i] twice), and
+        # a statement re-executed after a fork regenerates the same symbol
+        ver = sum(1 for s_ in st.stores if s_[0] is r)
+        import hashlib
+        offs = z3.simplify(p.off).sexpr() if isinstance(
+            p.off, z3.ExprRef) else str(p.off)
+        tag = hashlib.md5(offs.encode()).hexdigest()[:10]
+        lname = 'mem_%s[%s]v%d' % (r.name, tag, ver)
         if t.kind == 'int':
-            # two loads of the same location with no store to the region in
-            # between give the same value (CWRAP(x[i], m) loads x[i] twice)
-            ver = sum(1 for s_ in st.stores if s_[0] is r)
-            ck = ('memval', r.uid, z3.simplify(p.off).sexpr(), sz, ver)
+            ck = ('memval', r.uid, offs, sz, ver)
             hit = st.ghost.get(ck)
             if hit is not None:
                 return hit
-            v = self.fresh_int('mem_' + r.name, t.s if t.s in (
-                'int', 'long', 'char') else TYPEDEF_INT.get(t.s, 'int'))
+            ity = t.s if t.s in ('int', 'long', 'char') else \
+                TYPEDEF_INT.get(t.s, 'int')
+            v = IntV(z3.Int(lname), ity)
+            lo, hi = CT(ity).rng()
+            self.axioms.append(z3.And(v.t >= lo, v.t <= hi))
             st.ghost[ck] = v
             inv = st.ghost.get(('elem_inv', r.uid))
             if inv is not None:
@@ -979,7 +989,7 @@ class Executor:
                 st.ghost[('last_load', r.uid)] = v.t
             return v
         if t.kind in ('float', 'complex'):
-            return FltV(self.fresh_real('mem_' + r.name), loc.ty)
+            return FltV(z3.Real(lname), loc.ty)
         return Opaque('mem ' + r.name)
 
     def write(self, loc, v, st, n):
